@@ -610,6 +610,49 @@ def make_dist_execute(seed, cfgs):
     return execute
 
 
+EXACT_OFFSETS = [(3, 4, 0), (0, -3, 4), (-4, 0, 3), (0, 0, 5), (2, 3, 6), (-6, 2, -3), (4, 4, 7), (1, 4, 8)]   # norms 5,5,5,5,7,7,9,9: exact in floating point
+
+
+def exec_exact_radius(case, obs):
+    """A particle whose complete position is EXACTLY the radius away from a reference point is "within the radius" (removed);
+    integer offsets with integer norms make the distance exact.  Shift splits vary; a second particle sits just beyond."""
+    from cryocat import cryomotl as cm
+
+    oi, split, inplace, seed = case
+    off = np.array(EXACT_OFFSETS[oi], dtype=float)
+    radius = float(np.sqrt((off ** 2).sum()))
+    if radius != round(radius):
+        raise HarnessError("exact-radius palette is not exact")
+    a = np.array(PT["A"][1])
+    tgt = a + off
+    if split == "integer":
+        on = row(0, 1, xyz=tgt.tolist(), shift=[0.0, 0.0, 0.0])
+    elif split == "half-shift":
+        on = row(0, 1, xyz=(tgt - np.array([0.5, -0.5, 0.25])).tolist(), shift=[0.5, -0.5, 0.25])
+    else:
+        on = row(0, 1, xyz=a.tolist(), shift=off.tolist())
+    beyond = row(1, 1, xyz=(a + off * 1.25).tolist(), shift=[0.0, 0.0, 0.0])      # 1.25 r away
+    inside = row(2, 1, xyz=(a + off * 0.5).tolist(), shift=[0.0, 0.0, 0.0])       # 0.5 r away
+    other = row(3, 2, xyz=tgt.tolist(), shift=[0.0, 0.0, 0.0])                    # same place, tomogram without that point
+    rows = [beyond, on, inside, other]
+    pts_df = dist_points(("A",), odd=False)
+    m = obs.lib("Motl.__init__", cm.Motl, make_frame(rows, gapped_index=(oi % 2 == 1)))
+    with quiet():
+        res = obs.lib(SITE_DIST, m.clean_by_distance_to_points, pts_df, radius, inplace=inplace)
+    out = m.df if inplace else getattr(res, "df", None)
+    kept = judge_survivors(obs, SITE_DIST, out, rows)
+    obs.nontrivial = True
+    if kept is None:
+        obs.outcome = ("bad-result",)
+        return
+    obs.check(on["subtomo_id"] not in kept, SITE_DIST, "within-radius-kept",
+              f"particle exactly {radius} voxels from point A (offset {off.tolist()}, {split} split) was kept with radius {radius}", "exactly-at-radius")
+    obs.check(inside["subtomo_id"] not in kept, SITE_DIST, "within-radius-kept", "particle at half the radius was kept", "")
+    obs.check(beyond["subtomo_id"] in kept, SITE_DIST, "outside-radius-removed", "particle at 1.25 radius was removed", "")
+    obs.check(other["subtomo_id"] in kept, SITE_DIST, "other-tomogram-point-used", "particle of a tomogram without that point was removed", "")
+    obs.outcome = tuple(sorted(kept))
+
+
 def dist_describe(seed, cfgs):
     dirs = dist_dirs(seed)
 
@@ -864,6 +907,10 @@ def families(tier, seed):
     fams.append(Family("distance-to-points", Union(*dparts), make_dist_execute(seed, dcfgs), describe=dist_describe(seed, dcfgs),
                        expect=("within-radius-kept", "outside-radius-removed", "shift-ignored", "other-tomogram-point-used", "survivor-altered",
                                "row-duplicated", "row-unknown", "inplace-false-original-changed")))
+
+    fams.append(Family("distance-exactly-radius", Mapped(Product(list(range(len(EXACT_OFFSETS))), ["integer", "half-shift", "all-shift"], [True, False]), lambda c: c + (seed,)),
+                       exec_exact_radius, describe=lambda c: {"offset": list(EXACT_OFFSETS[c[0]]), "position_split": c[1], "inplace": c[2]},
+                       expect=("within-radius-kept", "outside-radius-removed"), min_outcomes=1))
 
     # ---- tomogram mask ------------------------------------------------------------------------------------------
     mcfgs = [(mode, inpl) for mode in MASK_MODES for inpl in (True, False)]
